@@ -29,7 +29,7 @@ import core
 import gen
 import c13_lib as L
 
-PROOF_MODULES = ["UnytProofs.C13", "UnytProofs.C13Rules"]
+PROOF_MODULES = ["UnytProofs.C13", "UnytProofs.C13Rules", "UnytProofs.C13Home"]
 HERE = os.path.dirname(os.path.abspath(__file__))
 
 REG_ROUTES = ["copy_registry", "deepcopy_registry", "json", "pickle_registry"]
@@ -52,6 +52,7 @@ ADDS = [("foo", 2.0, "length", 0.0, 1), ("foo", 5.0, "length", 0.0, 1), ("zot", 
 SYMS = ["foo", "zot", "qux", "pc", "au", "kfoo", "mile", "nosuch"]
 MIXED_FORMS = ["unit*", "unit/", "arr*", "arr/", "arr+", "qty*"]
 LOOSE_FORMS = {"arr*", "arr/", "arr+", "qty*"}
+CONVERT_LENGTHS = ["foo", "m", "km", "pc", "kfoo", "mile"]
 RULE_OF = {"arr*": "_multiply_units", "arr/": "_divide_units", "qty*": "_multiply_units"}
 
 
@@ -153,6 +154,13 @@ def gen_history(rng, n_steps, flavour):
             nsys += 1
             base = rng.choice([["km", "g", "s"], ["cm", "kg", "s"], ["foo", "g", "s"], ["kfoo", "kg", "s"], ["m", "kg", "s"]])
             h.append(["newsys", r, f"c13sys{nsys}", base])
+        elif k < 0.72:
+            # data of one registry converted to a unit of another, given as an OBJECT or as a string
+            a, b = rng.randrange(nreg), rng.randrange(nreg)
+            ep = rng.choice(L.CONVERT_EPS)
+            # (the constructor forms given a STRING relabel through the default registry: not a conversion)
+            how = "obj" if ep.startswith("ctor") else rng.choice(["obj", "obj", "str"])
+            h.append(["convert", a, b, ep, how, rng.choice(CONVERT_LENGTHS), rng.choice(CONVERT_LENGTHS)])
         else:
             a, b = rng.randrange(nreg), rng.randrange(nreg)
             form = rng.choice(MIXED_FORMS if flavour != "strict" else ["unit*", "unit/"])
@@ -218,6 +226,13 @@ def scripted_histories():
     for form in MIXED_FORMS:
         out.append([["fresh", 1, "mks"], ["op", 1, "add", "zot", 3.0, "time", 0.0, 1], ["mixed", 0, 1, form, "km", "zot"],
                     ["fresh", 1, "mks"], ["mixed", 2, 1, form, "pc", "zot"], ["mixed", 1, 2, form, "zot", "pc"]])
+    # conversions across registries to a unit OBJECT (shared: the namespace / the string cache hand out the same one),
+    # then edits of the data's registry and a look back at the target's
+    for ep in L.CONVERT_EPS:
+        out.append([["fresh", 1, "mks"], ["op", 1, "add", "foo", 2.0, "length", 0.0, 1], ["fresh", 1, "mks"],
+                    ["convert", 1, 0, ep, "obj", "foo", "m"], ["convert", 1, 2, ep, "obj", "foo", "km"],
+                    ["convert", 1, 2, "to" if ep.startswith("ctor") else ep, "str", "foo", "km"], ["op", 1, "modf", "m", 5.0], ["op", 0, "unit", "m"],
+                    ["op", 2, "unit", "km"], ["convert", 0, 1, ep, "obj", "pc", "foo"], ["op", 2, "has", "foo"]])
     out.append([["fresh", 1, "cgs"], ["newsys", 1, "c13sysA", ["km", "g", "s"]], ["op", 1, "add", "foo", 2.0, "length", 0.0, 1],
                 ["newsys", 1, "c13sysB", ["kfoo", "kg", "s"]], ["fresh", 1, "mks"], ["op", 2, "has", "kfoo"], ["op", 0, "has", "kfoo"]])
     out.append([["defunit", 0, "c13unit", 3.0, "km", 1], ["fresh", 1, "mks"], ["op", 1, "has", "c13unit"], ["op", 0, "unit", "kc13unit"],
@@ -290,6 +305,12 @@ def model_lines(st, out, dict_cells, key=None):
         return [f"c13.newsys\t{r}\t{name}\t{','.join(list(base) + ['K', 'rad', 'A', 'cd', 'Np'])}"]
     if k == "namespace":
         return []  # hundreds of look-ups through r: the comparison goes on in `loose` mode (rows only)
+    if k == "convert":
+        a, b, ep, how, qa, qb = st[1:]
+        # building the operands; a string target is resolved through the DATA's registry (`_sanitize_units_convert`)
+        if how == "str" and out[0] == "err" and len(out) > 2:
+            return [f"c13.op\t{a}\tunit\t{qa}"]  # the data's unit could not be built: nothing else happened
+        return [f"c13.op\t{a}\tunit\t{qa}", f"c13.op\t{b if how == 'obj' else a}\tunit\t{qb}"]
     if k == "mixed":
         a, b, form, qa, qb = st[1:]
         lines = [f"c13.op\t{a}\tunit\t{qa}", f"c13.op\t{b}\tunit\t{qb}"]
@@ -369,6 +390,7 @@ def fix_indices(hist):
                 "sibling": [st[2]] if st[0] == "sibling" else [], "unitcopy": [st[1]] if st[0] == "unitcopy" else [],
                 "op": [st[1]] if st[0] == "op" else [], "defunit": [st[1]] if st[0] == "defunit" else [],
                 "newsys": [st[1]] if st[0] == "newsys" else [], "mixed": st[1:3] if st[0] == "mixed" else [],
+                "convert": st[1:3] if st[0] == "convert" else [],
                 "namespace": [st[1]] if st[0] == "namespace" else []}.get(st[0], [])
         if any(r >= len(W.regs) for r in refs) or (st[0] == "fromdict" and st[1] >= len(W.dicts)):
             continue
@@ -520,6 +542,8 @@ def correspond(trace, replies):
                 ok = (out[0] == "err" and last[0] == "err" and last[1] == out[1]) or (out[0] == "reg2" and last[0] == "reg" and int(last[1]) == out[2])
             elif st[0] == "routeobj" and out[0] == "err":
                 ok = last[0] == "err" and last[1] == out[1]
+            elif st[0] == "convert":
+                ok = True  # the look-ups are compared through the caches / tables below; the oracle judges the rest
             elif st[0] == "mixed" and out[0] == "err":
                 ok = True  # refusals of the arithmetic itself are other properties' subject
             elif st[0] == "mixed" and out[0] == "mixed":
@@ -570,8 +594,17 @@ def correspond(trace, replies):
                 mder = [x for x in d[8].split(",") if x] if len(d) > 8 else []
                 if t["loose"]:
                     # array arithmetic looks symbols up on its own: compare the rows that are nobody's write-back
-                    a = {k2: v for k2, v in mdig.items() if k2 not in mder}
-                    b = {k2: v for k2, v in rd["digest"].items() if k2 not in rd["derived"]}
+                    # (registries made from ONE `lut=` dict share the table but not the derived-symbol sets: a row
+                    # written back through one of them is a write-back for all of them)
+                    ider = set(rd["derived"])
+                    mder_all = set(mder)
+                    for j in range(nreg):
+                        if rl[1 + j] == rl[1 + i]:
+                            ider |= set(t["dumps"][j]["derived"])
+                            dj = dumps[j]
+                            mder_all |= {x for x in (dj[8].split(",") if len(dj) > 8 else []) if x}
+                    a = {k2: v for k2, v in mdig.items() if k2 not in mder_all and k2 not in ider}
+                    b = {k2: v for k2, v in rd["digest"].items() if k2 not in ider and k2 not in mder_all}
                     if a != b:
                         dis.append(f"step {k} {st}: registry {i} rows differ: model {sorted(a.items())[:4]} implementation {sorted(b.items())[:4]}")
                 else:
@@ -602,6 +635,183 @@ def lines_of_trace(trace):
 
 
 # --------------------------------------------------------------------------------------
+# unit objects as shared mutable objects: histories for `UnytModel/UnitHome.lean`
+
+
+def gen_home_history(rng, n_steps):
+    h = []
+    for _ in range(n_steps):
+        k = rng.random()
+        if k < 0.30:
+            h.append(["lookup", rng.randrange(3), rng.choice(L.HOME_LENGTHS + ["s", "g"])])
+        elif k < 0.36:
+            h.append(["clear", rng.randint(1, 2)])
+        elif k < 0.46:
+            h.append(["arith", rng.randrange(64), rng.randrange(64), rng.choice("*/")])
+        elif k < 0.58:
+            reg = rng.choice([None, 0, 1, 2])
+            # the user-level re-labelling (registry= AND bypass_validation=True) in a minority of the histories
+            h.append(["construct", rng.randrange(64), reg, int(rng.random() < (0.15 if reg is not None else 0.5))])
+        else:
+            ep = rng.choice(L.HOME_EPS)
+            if ep.startswith("ctor") or rng.random() < 0.7:
+                h.append(["convert", ep, rng.randrange(64), "obj", rng.randrange(64)])
+            else:
+                h.append(["convert", ep, rng.randrange(64), "str", rng.choice(L.HOME_LENGTHS)])
+    return h
+
+
+def scripted_home_histories():
+    out = []
+    for ep in L.HOME_EPS:
+        # data of registry 1 converted to the exported metre (object 0) and to registry 2's cached km, then look-ups
+        out.append([["lookup", 1, "pc"], ["lookup", 2, "km"], ["convert", ep, 4, "obj", 0], ["convert", ep, 4, "obj", 5],
+                    ["lookup", 0, "m"], ["lookup", 2, "km"], ["convert", ep, 0, "obj", 4], ["clear", 1], ["lookup", 1, "pc"],
+                    ["convert", ep, 5, "obj", 1], ["lookup", 0, "km"]])
+    out.append([["lookup", 1, "m"], ["construct", 4, 2, 0], ["construct", 4, 1, 0], ["construct", 0, 1, 0], ["arith", 4, 0, "*"],
+                ["arith", 0, 4, "/"], ["construct", 6, 2, 0], ["lookup", 2, "m"], ["construct", 4, None, 1], ["construct", 4, 2, 1],
+                ["lookup", 1, "m"]])
+    return out
+
+
+def _home_job(args):
+    idx, hist = args
+    core.quiet_numpy()
+    try:
+        fails, trace = L.home_oracle(hist)
+        return idx, fails, trace, None
+    except Exception:  # noqa: BLE001
+        import traceback
+
+        return idx, [], None, "home oracle crashed: " + traceback.format_exc()[-800:]
+
+
+def home_model_lines(trace):
+    lines = ["c13.h.reset\t" + ",".join(f"{n}:{int(c)}" for n, c in trace["seed"])]
+    for t in trace["steps"]:
+        if t is None:
+            continue
+        st = t["st"]
+        if st[0] == "lookup":
+            lines.append(f"c13.h.lookup\t{st[1]}\t{st[2]}")
+        elif st[0] == "clear":
+            lines.append(f"c13.h.clear\t{st[1]}")
+        elif st[0] == "arith":
+            lines.append(f"c13.h.arith\t{st[1]}\t{st[2]}\t{t['out'][3] if t['out'][0] == 'obj' else '?'}")
+        elif st[0] == "construct":
+            lines.append(f"c13.h.construct\t{st[1]}\t{'-' if st[2] is None else st[2]}\t{int(st[3])}")
+        elif st[0] == "convert":
+            lines.append(f"c13.h.convert\t{st[1]}\t{st[2]}\t{st[3]}\t{st[4]}")
+        lines.append("c13.h.homes")
+        lines += [f"c13.h.cache\t{r}" for r in range(1, trace["nregs"] + 1)]
+    return lines
+
+
+def home_correspond(trace, replies):
+    it = iter(replies)
+    next(it)
+    for k, t in enumerate(trace["steps"]):
+        if t is None:
+            continue
+        st, out = t["st"], t["out"]
+        rep = next(it)
+        homes = next(it)
+        caches = [next(it) for _ in range(trace["nregs"])]
+        if out[0] == "err":
+            return [f"step {k} {st}: the implementation raised {out[1]}, model {rep}"]
+        if out[0] == "obj" and (rep[0] != "obj" or int(rep[1]) != out[1] or int(rep[2]) != out[2]):
+            return [f"step {k} {st}: implementation answers with unit object {out[1]} of registry {out[2]}, model {rep}"]
+        mh = [int(x) for x in homes[1].split(",")] if len(homes) > 1 and homes[1] else []
+        if mh != t["homes"]:
+            return [f"step {k} {st}: registries of the unit objects: implementation {t['homes']}, model {mh}"]
+        for r, (c, rc) in enumerate(zip(caches, t["caches"]), start=1):
+            mc = sorted(x for x in (c[1].split(",") if len(c) > 1 else []) if x)
+            if mc != rc:
+                return [f"step {k} {st}: string cache of registry {r}: implementation {rc}, model {mc}"]
+    return []
+
+
+def replay_home_source(hist, key):
+    lib = open(os.path.join(HERE, "c13_lib.py"), encoding="utf-8").read()
+    return ("import warnings; warnings.simplefilter('ignore')\nimport numpy as _np; _np.seterr(all='ignore')\n" + lib
+            + f"\n\nreplay_home({json.dumps(hist)}, {key!r})\n")
+
+
+def minimise_home(hist, key):
+    cur = [list(s) for s in hist]
+    for i in reversed(range(len(cur))):
+        trial = cur[:i] + cur[i + 1:]
+        try:
+            f = run_isolated(_home_job, (0, trial))[1]
+        except Exception:  # noqa: BLE001
+            continue
+        if any(x["key"] == key for x in f):
+            cur = trial
+    return cur
+
+
+def run_home(chk, tier, rng, ctx, nproc):
+    """the unit-object heap: oracle + correspondence with `UnitHome.step` (driver opcodes `c13.h.*`)"""
+    try:
+        xj = json.load(open(os.path.join(core.BUILD, "extract_c13_conv.json"), encoding="utf-8"))
+        chk.extra["conversion_entry_points"] = {"rows": xj["rows"], "fast_path_assigns": xj["fast"]}
+        if xj["errors"]:
+            chk.disagree("translator", f"conversion probes raised: {xj['errors']}")
+    except Exception as e:  # noqa: BLE001
+        chk.disagree("translator", f"no conversion table extracted: {e!r}")
+    hists = scripted_home_histories()
+    n_rand = 150 if tier == "quick" else 1500
+    for _ in range(n_rand):
+        hists.append(gen_home_history(rng, rng.randint(6, 18 if tier == "quick" else 30)))
+    res = {}
+    with ctx.Pool(nproc, maxtasksperchild=1) as pool:
+        for idx, fails, trace, err in pool.imap_unordered(_home_job, list(enumerate(hists)), chunksize=1):
+            res[idx] = (fails, trace, err)
+    chk.extra["histories"]["unit_object_histories"] = len(res)
+    lines, spans = [], {}
+    for idx in sorted(res):
+        fails, trace, err = res[idx]
+        if err or trace is None:
+            chk.disagree("c13.home", f"{hists[idx]}: {err}")
+            continue
+        ml = home_model_lines(trace)
+        spans[idx] = (len(lines), len(lines) + len(ml))
+        lines += ml
+    try:
+        replies = core.Model("drv_c13").ask(lines)
+    except Exception as e:  # noqa: BLE001
+        replies = None
+        chk.disagree("driver", repr(e))
+    seen = {}
+    for idx in sorted(res):
+        fails, trace, err = res[idx]
+        h = hists[idx]
+        chk.case("home:" + json.dumps(h), None)
+        for s in h:
+            chk.count("unit-object-step:" + s[0] + (":" + s[1] + ":" + s[3] if s[0] == "convert" else ""))
+        for f in fails:
+            if f["key"] not in seen or len(h) < len(seen[f["key"]][0]):
+                seen[f["key"]] = (h, f)
+            chk.count("oracle-failure:" + f["key"].split("|")[0])
+        if replies is not None and idx in spans:
+            a, b = spans[idx]
+            try:
+                dis = home_correspond(trace, replies[a:b])
+            except Exception:  # noqa: BLE001
+                import traceback
+
+                dis = [f"correspondence crashed: {traceback.format_exc()[-600:]}"]
+            for d in dis[:1]:
+                chk.disagree("c13.home", f"{h}: {d}")
+    known = {k["key"] for k in core.load_known() if k["property"] == "C13" and k.get("status") == "known"}
+    for key in sorted(seen):
+        h, f = seen[key]
+        if key not in known:
+            try:
+                h = minimise_home(h, key)
+            except Exception:  # noqa: BLE001
+                pass
+        chk.fail(key, f["what"], {"python": replay_home_source(h, key), "history": h})
 
 
 def minimise(hist, key):
@@ -740,6 +950,9 @@ def run(tier, seed):
             except Exception:  # noqa: BLE001
                 pass
         chk.fail(key, f["what"], {"python": replay_source(h, key), "history": h})
+    t_home = time.time()
+    run_home(chk, tier, rng, ctx, nproc)
+    chk.extra["unit_object_part_wall_s"] = round(time.time() - t_home, 1)
     if os.environ.get("C13_DEBUG"):
         for d in chk.disagreements[:30]:
             print("DISAGREE", d[0], d[1][:900])
